@@ -75,6 +75,16 @@ RecordLoop:
 	for i := 0; i < numRecords; i++ {
 		hash := uint64(0)
 		for _, field := range p.options.FieldList {
+			if i >= len(fieldToValues[field]) {
+				// The column is not known to this IQR (ReadColumn returns no values for an
+				// unknown column when there are no RRCs): the value is missing for this record.
+				if !p.options.DedupOptions.KeepEmpty {
+					rowsToDiscard = append(rowsToDiscard, i)
+				}
+
+				continue RecordLoop
+			}
+
 			hash ^= fieldToValues[field][i].Hash()
 
 			if fieldToValues[field][i].Dtype == sutils.SS_DT_BACKFILL ||
